@@ -163,10 +163,14 @@ def run_check(prop: Prop, tier: str, seed: int) -> int:
         if isinstance(o, dict) and "harness_error" in o:
             continue
         try:
-            t = prop.term(c, o)
-            t(core.Names())  # make sure it serialises
-            serial.append(t)
-            serial_idx.append(i)
+            ts = prop.term(c, o)
+            if callable(ts):
+                ts = [ts]
+            for t in ts:
+                t(core.Names())  # make sure it serialises
+            for t in ts:
+                serial.append(t)
+                serial_idx.append(i)
         except Exception as e:
             harness_errors.append((c, {"harness_error": f"serialise: {type(e).__name__}: {e}"}))
     if proof.get("broken", "").startswith("theories/Properties") or proof_ok or (
@@ -176,7 +180,7 @@ def run_check(prop: Prop, tier: str, seed: int) -> int:
             mm, coq_errors, cstats = core.run_case_files(
                 pid, prop.imports, prop.case_type, prop.check_fn, serial
             )
-            mism = [serial_idx[i] for i in mm]
+            mism = sorted(set(serial_idx[i] for i in mm))
         except Exception as e:
             coq_errors = [("run_case_files", f"{type(e).__name__}: {e}")]
     else:
@@ -376,8 +380,14 @@ def model_value(prop: Prop, case, obs):
     if not prop.show_fn:
         return None
     names = core.Names()
-    t = prop.term(case, obs)(names)
-    return core.eval_in_coq(prop.pid, prop.imports, names.definitions(), f"{prop.show_fn} ({t})")
+    ts = prop.term(case, obs)
+    if callable(ts):
+        ts = [ts]
+    out = []
+    for t in ts[:4]:
+        txt = t(names)
+        out.append(core.eval_in_coq(prop.pid, prop.imports, names.definitions(), f"{prop.show_fn} ({txt})"))
+    return out[0] if len(out) == 1 else out
 
 
 def replay(prop: Prop, path: str) -> int:
